@@ -102,7 +102,19 @@ class TracerReplayer:
         self.last_kind = "U"
 
     # ---- recording
+    def hold(self, arr, label):
+        """a result handed to the caller: it must keep its value whatever is called later (C06: results are values)"""
+        a = arr.data if type(arr).__name__ == "UTPM" else arr
+        if isinstance(a, numpy.ndarray):
+            self.held.append((a, a.copy(), label))
+
+    def check_held(self):
+        for a, keep, label in self.held:
+            if a.shape != keep.shape or not numpy.array_equal(a, keep, equal_nan=True):
+                raise Mismatch("earlier-result-changed", "the %s returned earlier has been overwritten by this call" % label)
+
     def start(self, recpt):
+        self.held = []
         al = self.al
         # an unrelated graph, completed BEFORE the graph under test starts recording (evaluated later by "other_rec")
         self.cgO = al.CGraph()
@@ -243,6 +255,7 @@ class TracerReplayer:
         check_val(self.dep.x, e["ret"], "dependent after pushforward")
         if not numpy.array_equal(keep, x.data if e["kind"] == "U" else x):
             raise Mismatch("user-input-modified", "pushforward changed the caller's input object")
+        self.check_held()
         self.snapshot = self.dep_digest()
 
     def dep_digest(self):
@@ -266,6 +279,8 @@ class TracerReplayer:
         else:
             check_val(self.nodes[0].xbar, e["ret"][:self.N], "xbar of the first independent after pullback")
             check_val(self.z.xbar, e["ret"][self.N:], "xbar of the second independent after pullback")
+        self.check_held()
+        self.hold(self.nodes[0].xbar, "adjoint (x.xbar) of a reverse sweep")
         if not numpy.array_equal(keep, ybar.data):
             raise Mismatch("user-seed-modified", "pullback changed the caller's seed object")
         if not numpy.array_equal(self.snapshot, self.dep_digest()):
@@ -320,6 +335,7 @@ class TracerReplayer:
         exp = numpy.array(json.loads(json.dumps(e["ret"])), dtype=object)
         expf = numpy.array([[float(to_frac(q)) for q in row] if isinstance(row[0], list) else float(to_frac(row))
                             for row in e["ret"]], dtype=float)
+        got0 = got
         got = numpy.asarray(got, dtype=float)
         if name == "jacobian" and expf.shape[0] == 1 and got.ndim == 1:
             expf = expf.reshape(-1)     # documented: J.ndim = 1 when M == 1
@@ -329,6 +345,8 @@ class TracerReplayer:
             raise Mismatch("shape", "%s returns shape %s, expected %s" % (name, got.shape, expf.shape))
         if not numpy.allclose(got, expf, rtol=1e-9, atol=1e-11):
             raise Mismatch("value", "%s returns %s, expected %s" % (name, got.tolist(), expf.tolist()))
+        self.check_held()
+        self.hold(got0, "result of " + name)
         self.last_kind = "U"
         self.snapshot = self.dep_digest()
 
